@@ -53,7 +53,14 @@ def gen_case(seed, tier):
                 rd = sorted(set((g.pick(shared) if g.chance(0.3) else start + g.rint(-3600, 86400)) for _ in range(n)))
                 if not rules and start not in rd:
                     rd = sorted(rd + [start])
+                if g.chance(0.25):
+                    # the same instant listed twice is one occurrence
+                    rd = rd + [g.pick(rd)]
+                    g.r.shuffle(rd)
                 sp['rdates'] = rd
+                if len(rd) > 1 and g.chance(0.3):
+                    # spread over two RDATE lines
+                    sp['rdate_split'] = g.rint(1, len(rd) - 1)
         specs.append(sp)
     # several VEVENTs with one UID are separate streams: an identical
     # occurrence of the same UID collapses, across UIDs it does not
@@ -181,6 +188,10 @@ def run_seed(seed, tier, opts=None):
         res['probes']['several_rrules_in_one_event'] = 1
     if any(s.get('rdates') and s.get('rules') for s in specs):
         res['probes']['rrule_plus_rdate'] = 1
+    if any(s.get('rdate_split') for s in specs):
+        res['probes']['several_rdate_lines'] = 1
+    if any(len(s.get('rdates', [])) != len(set(s.get('rdates', []))) for s in specs):
+        res['probes']['rdate_listed_twice'] = 1
     if any(s.get('allday') for s in specs) and any(not s.get('allday') for s in specs):
         res['probes']['allday_and_timed'] = 1
     if len(expected) > 64:
